@@ -106,7 +106,15 @@ def role_of(T, f, win):
                     open_annot = False
     if open_annot and depth > 0:
         return '%s:open-annotation-paren' % f['kind']
-    return '%s:%s' % (f['kind'], ' '.join(names))
+    # coarse role: item kind + bracket state the window leaves behind + whether the window contains a recovery-relevant opener
+    state = 'open-paren' if depth > 0 else 'balanced'
+    ang = names.count('"<"') - names.count('">"')
+    sq = names.count('"["') - names.count('"]"')
+    if ang > 0:
+        state += '+open-angle'
+    if sq > 0:
+        state += '+open-bracket'
+    return '%s:%s' % (f['kind'], state)
 
 
 def explore_frame(args):
